@@ -16,3 +16,25 @@ package middleware
 //@ scan[scope-session-writers] field-writers RequestScope.Session pkg/middleware.(*storedSessionLoader).loadSession$1 pkg/middleware.(*jwtSessionLoader).loadSession$1 pkg/middleware.loadBasicAuthSession$2
 //@ prop C16
 //@ scan[reverse-proxy-flag-writers] field-writers RequestScope.ReverseProxy pkg/middleware.NewScope$1$1
+
+// ------------------------------------------------------------------ C04 / C14: a bearer token becomes a session only after it verified,
+// its claims decoded into their declared types (email_verified into a *bool: any other JSON type is a decoding error), and its
+// e-mail is not marked unverified; the session's identity fields are those claims
+// verify is a verifier's Verify method value (providers: p.Verifier.Verify; extra JWT issuers: verifier.Verify): it answers
+// with a token or an error, never neither (pkg/providers/oidc: (*idTokenVerifier).Verify is verified to do so)
+//@ func funcval verify
+//@ ensures[token-or-error] ret1 == nil ==> ret0 != nil
+
+//@ func CreateTokenToSessionFunc$1
+//@ safety
+//@ prop C04 C14
+//@ requires[config:verify-function-set] verify != nil
+//@ at call Claims assert[claims-of-the-verified-token] recv(Claims) == ret0(verify) && ret1(verify) == nil && arg(verify, 1) == token
+//@     && arg(Claims, 1) == &claims
+//@ ensures[unverifiable-token-gives-no-session] ret1(verify) != nil ==> ret0 == nil && ret1 == ret1(verify) && !called(Claims)
+//@ ensures[undecodable-claims-give-no-session] called(Claims) && ret(Claims) != nil ==> ret0 == nil && ret1 != nil
+//@ ensures[unverified-email-gives-no-session] called(Claims) && claims.Verified != nil && !deref(claims.Verified) ==> ret0 == nil && ret1 != nil
+//@ ensures[session-carries-the-tokens-claims] ret1 == nil ==> ret0 != nil && ret0.User == claims.Subject && ret0.Email == claims.Email
+//@     && (claims.Email == claims.Subject || claims.Email != "") && ret0.Groups == claims.Groups
+//@     && ret0.PreferredUsername == claims.PreferredUsername && ret0.IDToken == token && ret0.AccessToken == token && ret0.RefreshToken == ""
+//@     && ret0.ExpiresOn == &ret0(verify).Expiry
